@@ -56,6 +56,16 @@ class Harness:
         results = explore(body, max_paths=max_paths)
         for r in results:
             self.paths += 1
+            # vacuity guard (cover query), once per path: the final path condition must be satisfiable; only when it
+            # is not are the obligations of the path checked one by one
+            if r.ctx.obligations:
+                s = z3.Solver()
+                s.set("timeout", 3000)
+                for h in r.ctx.pc:
+                    s.add(h)
+                path_ok = s.check() != z3.unsat
+                for o in r.ctx.obligations:
+                    o.meta["cover_known"] = path_ok
             self.obligations.extend(r.ctx.obligations)
         return results
 
@@ -104,13 +114,14 @@ def run_check(repo, chk: Check, tier, prefix):
             ms += t
             if r == "discharged":
                 # cover: hypotheses must be satisfiable, else the instance is vacuous
-                s = z3.Solver()
-                s.set("timeout", 5000)
-                for h in o.hyps:
-                    s.add(h)
-                if s.check() == z3.unsat:
-                    vac += 1
-                    continue
+                if not o.meta.get("cover_known", False):
+                    s = z3.Solver()
+                    s.set("timeout", 3000)
+                    for h in o.hyps:
+                        s.add(h)
+                    if s.check() == z3.unsat:
+                        vac += 1
+                        continue
                 if tier == "thorough":
                     c = cvc5_check(o)
                     if c == "sat":
